@@ -29,11 +29,31 @@ var apiLevel = map[string]string{
 // gateOf: cond is a call to LevelRange.Enable → (range path, level path).
 func (c *Ctx) gateOf(cond ssa.Value, ro *Roles, fr *Frame) (string, string, bool) {
 	call, ok := cond.(*ssa.Call)
-	if !ok || ro.Enable == nil || call.Common().StaticCallee() != ro.Enable {
+	if !ok || ro.Enable == nil {
 		return "", "", false
 	}
-	args := call.Common().Args
-	return strings.TrimPrefix(c.accessPath(args[0], fr), "&"), strings.TrimPrefix(c.accessPath(args[1], fr), "&"), true
+	if call.Common().StaticCallee() == ro.Enable {
+		args := call.Common().Args
+		return strings.TrimPrefix(c.accessPath(args[0], fr), "&"), strings.TrimPrefix(c.accessPath(args[1], fr), "&"), true
+	}
+	// a helper whose single result is the range test (e.g. `func (c *X) enabled(e *Event) bool { return c.Level.Enable(e.Level) }`)
+	if f := call.Common().StaticCallee(); f != nil && c.inModule(f) && f.Signature.Results().Len() == 1 {
+		if rv := singleReturn(f); rv != nil {
+			if inner, ok := rv.Results[0].(*ssa.Call); ok && inner.Common().StaticCallee() == ro.Enable {
+				d := 0
+				if fr != nil {
+					d = fr.Depth
+				}
+				nfr := &Frame{Fn: f, Site: call, Parent: fr, Depth: d + 1}
+				if fr == nil {
+					nfr.Parent = &Frame{Fn: call.Parent()}
+				}
+				args := inner.Common().Args
+				return strings.TrimPrefix(c.accessPath(args[0], nfr), "&"), strings.TrimPrefix(c.accessPath(args[1], nfr), "&"), true
+			}
+		}
+	}
+	return "", "", false
 }
 
 type delivery struct {
@@ -96,6 +116,11 @@ func (c *Ctx) deliveries(root *ssa.Function, ro *Roles, r *Report) ([]delivery, 
 		}
 		if leaf[callee] || callee == ro.Enable {
 			return false
+		}
+		if cv, ok := call.(*ssa.Call); ok {
+			if _, _, isGate := c.gateOf(cv, ro, s.Frame); isGate {
+				return false
+			}
 		}
 		return call.Common().StaticCallee() != nil
 	}
